@@ -351,7 +351,7 @@ theorem C11_cache_restores_earlier_pass :
 /-! ### Non-vacuity -/
 
 -- the hypotheses of `C11_outcome_eq_fresh` are satisfiable (identity pre-images), and with THIS RUN's facts record the
--- runtime pre-image then determines the runtime inputs (before fix 61d5158 this was refuted: `C11_old_witness_not_injective`)
+-- runtime pre-image then determines the runtime inputs (before fix 168aeab this was refuted: `C11_old_witness_not_injective`)
 example : InjOn (G := Nat) (A' := Nat) (N := Nat) (C := Nat) TestCache.generatedFacts id id (fun (_ : Nat) (_ : List (Nat × Nat)) => True) :=
   injOn_of_hashesNames _ id id facts_rule facts_files facts_names (fun _ _ h => h) (fun _ _ h => h)
 
